@@ -198,8 +198,9 @@ class Run(object):
             "wall_s": round(wall, 2),
             "violations": len(self.violations),
         }
-        os.makedirs(os.path.join(VERIF, "evidence"), exist_ok=True)
-        with open(os.path.join(VERIF, "evidence", "%s.json" % self.pid), "w") as fh:
+        evdir = os.environ.get("VERIF_EVIDENCE_DIR") or os.path.join(VERIF, "evidence")
+        os.makedirs(evdir, exist_ok=True)
+        with open(os.path.join(evdir, "%s.json" % self.pid), "w") as fh:
             json.dump(ev, fh, indent=1, default=str)
         print("%s tier=%s obligations=%d discharged=%d inconclusive=%d violations=%d known=%d "
               "queries=%d solver_s=%.1f wall_s=%.1f" %
